@@ -1,6 +1,6 @@
 (* Proofs/QuoteBridge.v — the string encoder of Model/Fmt.v (about which C07's theorems speak) IS the
    function regenerated from asimap/utils.py on every run (Gen/Quote.v, py2v): utils.imap_string. *)
-From Asimap Require Import Base.Res Base.Bytes Model.BodyAlg Model.Fmt.
+From Asimap Require Import Base.Res Base.Bytes Model.BodyAlg Model.Fmt Spec.RespTok Proofs.BodyAlgP Proofs.FmtP.
 From Asimap Require Gen.Quote.
 From Coq Require Import Lia ZArith List Bool NArith.
 Open Scope Z_scope.
@@ -31,4 +31,10 @@ Proof.
   destruct (needs_literal b).
   - unfold literal. rewrite dec_bytes_dec. reflexivity.
   - unfold quoted, DQ. rewrite escape_replace. cbn [app]. reflexivity.
+Qed.
+
+Theorem generated_string_roundtrip b rest :
+  exists w, Gen.Quote.imap_string b = Ok w /\ read_string (w ++ rest) = Some (b, rest).
+Proof.
+  exists (enc_string b). split; [exact (imap_string_is_enc_string b)|exact (read_string_enc b rest)].
 Qed.
